@@ -237,6 +237,56 @@ theorem c13_close_total (_hr : Reachable cfg s) (ha : anyApp s = true) :
     obtain ⟨l', hl⟩ := closeFirst_some hc
     simp only [step, ha, hl]; simp
 
+/-! ## The order inside `SlotGuard::drop`: send, then release
+
+In the model a slot guard's drop is two micro-steps, `gSend` (the `tx.send(value.close())` of the drop body) and
+`gRelease` (the field drop of `parent_drop_mode`, i.e. of the flush guard in wait mode), and `c13_wait_never_lost` /
+`c13_wait_blocks_close` quantify over every schedule — in particular over those that put the parent's whole drop (and the
+drop of every other flush guard) *before* `gSend` (the value's `close()` still running: nothing the model can see has
+happened yet, the guard is `live` and holds its flush guard) or *between* `gSend` and `gRelease`.  The value is never lost
+because the release comes after the send.  The variant below releases first (seeded change C13-k: "release the flush guard
+before the possibly slow `close()` unless we are the last holder"): the same schedule loses the value. -/
+
+inductive EvRF where
+  | ev (e : Ev)
+  /-- `SlotGuard::drop` of slot `i` gives its flush guard up *before* closing and sending (wait mode, not the last holder) -/
+  | releaseFirst (i : Nat)
+  deriving DecidableEq, Repr
+
+def stepRF (s : St) : EvRF → Option St
+  | .ev e => step s e
+  | .releaseFirst i =>
+    match s.slots[i]? with
+    | none => none
+    | some sl =>
+      if sl.g = .live ∧ sl.mode = .wait ∧ s.gS > 1 then
+        some (dropFG (setSlot s i fun sl => { sl with mode := .discard }))
+      else none
+
+def runRF (s : St) : List EvRF → Option St
+  | [] => some s
+  | e :: es => match stepRF s e with
+    | none => none
+    | some s' => runRF s' es
+
+/-- witness: a wait-mode guard starts to drop while the parent is alive and gives its flush guard up first; the parent is
+dropped while the value's `close()` is still running; the entry is closed and appended **without the slot value** although
+no force-flush guard exists; the later send goes to a dead channel. -/
+example : (runRF (init [fresh (false, 3)]) [.ev .newFG, .ev (.open 0 .wait 0), .ev (.gmut 0 9), .releaseFirst 0,
+            .ev .refDrop, .ev .pDecV, .ev .pDecG, .ev .innerDrop, .ev .closeSlot, .ev .emit, .ev (.gSend 0),
+            .ev (.gRelease 0)]).map (fun s => (s.appended, s.dgBegun, inFlight s))
+    = some ([⟨0, 0, [none]⟩], 0, false) := by decide
+
+/-- the model as it is, same schedule with the parent's whole drop before the guard's `gSend` (`close()` still running):
+the flush guard is still held, nothing is appended until the guard has sent and released — and then with the value. -/
+example : (run (init [fresh (false, 3)]) [.newFG, .open 0 .wait 0, .gmut 0 9, .refDrop, .pDecV, .pDecG]).map
+      (fun s => (s.appended.length, anyApp s, (step s .innerDrop).isSome))
+    = some (0, false, false) := by decide
+
+example : (run (init [fresh (false, 3)]) [.newFG, .open 0 .wait 0, .gmut 0 9, .refDrop, .pDecV, .pDecG, .gSend 0,
+            .gRelease 0, .innerDrop, .closeSlot, .emit]).map (fun s => s.appended)
+    = some [⟨0, 0, [some 9]⟩] := by decide
+
 /-! ## Non-vacuity (kernel-evaluated schedules) -/
 
 /-- the corpus case of the defect fixed by 839103f: open Discard, poll `wait_for_data` once, drop the future,
